@@ -373,6 +373,26 @@ def shadowing_dir(world: Tree, p: str) -> bool:
     return isinstance(t.get(stem), dict)
 
 
+def has_shadow(t: Tree) -> bool:
+    """Some directory n sits beside a module file n.py / n.pyi (the negation of Model.no_shadow)."""
+    for k, v in t.items():
+        if v is not None:
+            if (k + ".py") in t and t[k + ".py"] is None or (k + ".pyi") in t and t[k + ".pyi"] is None:
+                return True
+            if has_shadow(v):
+                return True
+    return False
+
+
+def entry_of(g: str, m: str) -> str:
+    """The search path entry through which module m was found at path g."""
+    parts = g.split("/")
+    k = len(m.split("."))
+    if parts[-1] in ("__init__.py", "__init__.pyi"):
+        k += 1
+    return "/".join(parts[:-k]) or "."
+
+
 # ------------------------------------------------------------------------------------------- the check
 
 def make_worlds(ctx: vlib.Ctx) -> tuple[list[Tree], dict[str, int]]:
@@ -560,6 +580,12 @@ def correspondence(ctx: vlib.Ctx, exe: str, worlds: list[Tree], workdir: str) ->
                     api_only["package directory that is itself an explicit package base shadows the module file beside it"] += 1
                     ctx.cov.setdefault("s1_api_only_samples", {}).setdefault("package-is-explicit-base", f"[{ts}] explicit=1 cwd={cfg[2]} mypy_path={cfg[3]}: {p} -> {m} -> {g}")
                     continue
+                if g != "NOTFOUND" and entry_of(g, m) != b:
+                    # found through an earlier search path entry (a mypy_path root or another base inside the tree):
+                    # the theorem (and the property) speak about the file's own base
+                    api_only["found through another search path entry than the file's base"] += 1
+                    ctx.cov.setdefault("s1_api_only_samples", {}).setdefault("other-entry", f"[{ts}] ns={cfg[0]} explicit={cfg[1]} cwd={cfg[2]} mypy_path={cfg[3]}: {p} -> {m}@{b} -> {g}")
+                    continue
                 if mode == "DIR" and g not in given and owner.get(g) == m:
                     # a file mapping to the same module name exists but `mypy DIR` left it out (no duplicate error):
                     # the command-line consequence is checked and reported by S2
@@ -611,6 +637,7 @@ def cli_stage(ctx: vlib.Ctx, exe: str, worlds: list[Tree], workdir: str) -> None
         {TOP: {"__init__.py": None, "a.py": None, "a": {"__init__.py": None}}, OUT: {}},
         {TOP: {"__init__.py": None, "a.py": None, "a.pyi": None, "b": {"__init__.pyi": None, "a.py": None}}, OUT: {}},
         {TOP: {"a": {"b.py": None}, "b": {"b.py": None}}, OUT: {}},
+        {TOP: {"__init__.py": None, "a.py": None, "a": {"a": {"a.py": None}}}, OUT: {}},
     ]
     chosen = fixed + rng.sample(pool, min(len(pool), ctx.n(110, 500)))
     jobs = []
@@ -656,7 +683,9 @@ def cli_stage(ctx: vlib.Ctx, exe: str, worlds: list[Tree], workdir: str) -> None
             if d and all((m == TOP or m.startswith(TOP + ".")) and b == "." for _, m, b in d):
                 compared += 1
                 if res["DIR"]["lines"] != res["PKG"]["lines"]:
-                    ctx.violation(f"C18:dir-vs-package:{ts}:{ns}{ex}", f"`mypy {TOP}` and `mypy -p {TOP}` differ on tree [{ts}] (namespace_packages={ns} "
+                    key = ("C18:package-walk-differs-where-module-beside-same-named-directory" if has_shadow(wd[TOP])
+                           else f"C18:dir-vs-package:{ts}:{ns}{ex}")
+                    ctx.violation(key, f"`mypy {TOP}` and `mypy -p {TOP}` differ on tree [{ts}] (namespace_packages={ns} "
                                   f"explicit_package_bases={ex}): {res['DIR']['lines'][:3]} vs {res['PKG']['lines'][:3]}",
                                   {"kind": "S2", "tree": ts, "ns": ns, "explicit": ex, "cwd": cwd, "res": res})
     ctx.add("evaluations", n_runs)
